@@ -372,7 +372,10 @@ func parseType(typeDefinition *openfgav1.TypeDefinition, isModularModel, include
 	return parsedTypeString, nil
 }
 
-func parseConditionParams(parameterMap map[string]*openfgav1.ConditionParamTypeRef) string {
+func parseConditionParams(
+	conditionName string,
+	parameterMap map[string]*openfgav1.ConditionParamTypeRef,
+) (string, error) {
 	parametersStringArray := []string{}
 
 	parameterNames := []string{}
@@ -389,6 +392,10 @@ func parseConditionParams(parameterMap map[string]*openfgav1.ConditionParamTypeR
 		parameterTypeString := strings.ToLower(strings.ReplaceAll(parameterType.GetTypeName().String(), "TYPE_NAME_", ""))
 
 		if parameterTypeString == "list" || parameterTypeString == "map" {
+			if len(parameterType.GetGenericTypes()) == 0 {
+				return "", errors.ConditionParamMissingGenericTypeError(conditionName, parameterName)
+			}
+
 			genericTypeString := strings.ToLower(
 				strings.ReplaceAll(
 					parameterType.GetGenericTypes()[0].GetTypeName().String(), "TYPE_NAME_", ""),
@@ -399,7 +406,7 @@ func parseConditionParams(parameterMap map[string]*openfgav1.ConditionParamTypeR
 		parametersStringArray = append(parametersStringArray, fmt.Sprintf("%s: %s", parameterName, parameterTypeString))
 	}
 
-	return strings.Join(parametersStringArray, ", ")
+	return strings.Join(parametersStringArray, ", "), nil
 }
 
 func parseCondition(conditionName string, conditionDef *openfgav1.Condition, includeSourceInformation bool) (string, error) {
@@ -407,7 +414,11 @@ func parseCondition(conditionName string, conditionDef *openfgav1.Condition, inc
 		return "", errors.ConditionNameDoesntMatchError(conditionName, conditionDef.GetName())
 	}
 
-	paramsString := parseConditionParams(conditionDef.GetParameters())
+	paramsString, err := parseConditionParams(conditionDef.GetName(), conditionDef.GetParameters())
+	if err != nil {
+		return "", err
+	}
+
 	sourceString := constructSourceComment(
 		conditionDef.GetMetadata().GetModule(),
 		conditionDef.GetMetadata().GetSourceInfo().GetFile(),
